@@ -212,6 +212,11 @@ def same_bytes_scalar(x):
     y = np.frombuffer(np.asarray(x).tobytes(), dtype=tgt)[0]
     if y.tobytes() != np.asarray(x).tobytes():
         return None
+    if y != y:
+        # NaN: pytato's constructors turn NaN scalars into pymbolic's NaN
+        # node, a raw NaN constant is not an object the API can produce (and
+        # compares unequal to its own copy)
+        return None
     return y
 
 
